@@ -262,6 +262,36 @@ func (g *G) genDidMsg() (sdk.Msg, string) {
 			active = append(active, d)
 		}
 	}
+	// bursts: several consecutive failing proofs for ONE identifier (somebody guessing)
+	if g.burstLeft == 0 && len(active) > 0 && g.chance("start-burst", g.bias("did-burst", 3)) {
+		g.burstDID, g.burstLeft = pick(g, "burst-did", active), 5+g.intn("burst-len", 3)
+	}
+	if g.burstLeft > 0 {
+		if e := m.Entries[g.burstDID]; e != nil && !e.Tombstone {
+			g.burstLeft--
+			auth, _ := g.authKeysOf(e.Doc)
+			var cur []int
+			for _, a := range auth {
+				cur = append(cur, a[0].(int))
+			}
+			authSet := append([]int{}, cur...)
+			if len(authSet) == 0 {
+				authSet = g.someAuthSet()
+			}
+			doc := g.genDoc(g.burstDID, authSet)
+			g.proofIntent = g.burstDID
+			// a proof by the right key over the wrong sequence: the signature check itself fails
+			vmid, sig, how := "", []byte(nil), "wrong-sequence"
+			if len(auth) > 0 {
+				a := auth[g.intn("burst-auth", len(auth))]
+				payload := world.DataWithSeqBytes(docBytes(doc), e.Seq+1+uint64(g.intn("burst-seq", 3)))
+				g.proofs = append(g.proofs, world.ProofReg{Key: a[0].(int), Payload: base64.StdEncoding.EncodeToString(payload), DID: g.burstDID})
+				vmid, sig = a[1].(string), w.DID.SignProofFor(w.Keys, a[0].(int), payload, g.burstDID)
+			}
+			return &didtypes.MsgUpdateDIDRequest{Did: g.burstDID, Document: doc, VerificationMethodId: vmid, Signature: sig, FromAddress: from}, "did-update(burst) proof=" + how
+		}
+		g.burstLeft = 0
+	}
 	pool := []string{}
 	for _, k := range w.Keys {
 		pool = append(pool, k.DID())
@@ -273,6 +303,17 @@ func (g *G) genDidMsg() (sdk.Msg, string) {
 			did = pick(g, "tomb", tomb)
 		} else if len(active) > 0 && g.chance("create-on-existing", 12) {
 			did = pick(g, "active", active)
+		}
+		if all := append(append([]string{}, active...), tomb...); len(all) > 0 && g.chance("did-related-to-existing", g.bias("did-related", 8)) {
+			// an identifier of its own that is a strict prefix or an extension of a registered one
+			// (32 to 44 base58 characters are legal)
+			base := strings.TrimPrefix(pick(g, "related-to", all), "did:panacea:")
+			switch {
+			case len(base) < 44 && g.chance("extend", 60):
+				did = "did:panacea:" + base + strings.Repeat("z", 1+g.intn("ext", 44-len(base)))
+			case len(base) > 32:
+				did = "did:panacea:" + base[:32+g.intn("cut", len(base)-32)]
+			}
 		}
 		if g.chance("did-with-extra-segment", g.bias("did-segment", 4)) {
 			// spellings next to the grammar: an extra colon-separated segment before the
@@ -367,6 +408,19 @@ func (g *G) genDidMsg() (sdk.Msg, string) {
 			panic(err)
 		}
 		note = "did-update-unchanged-document"
+	} else if g.chance("bare-document", g.bias("did-bare-doc", 4)) {
+		// a document that carries (almost) nothing but an id: no verificationMethod list
+		doc = &didtypes.DIDDocument{Id: docDID}
+		if g.chance("bare-with-embedded-auth", 50) {
+			full := g.genDoc(docDID, newAuth)
+			for _, rel := range full.Authentications {
+				if rel.GetVerificationMethod() != nil {
+					doc.Authentications = append(doc.Authentications, rel)
+				}
+			}
+			doc.Contexts = full.Contexts
+		}
+		note += "(bare document)"
 	} else {
 		doc = g.genDoc(docDID, newAuth)
 	}
